@@ -315,11 +315,14 @@ def r7_dehomogenisation_range(idx, r):
         body = getattr(node, "body", None)
         for blk in [b for b in (body, getattr(node, "orelse", None)) if isinstance(b, list)]:
             recv = [s_ for s_ in blk if isinstance(s_, ast.Assign) and norm(s_.targets[0]) == "childrenToSet"]
-            den = [s_ for s_ in blk if isinstance(s_, ast.Assign) and isinstance(s_.value, ast.BinOp) and isinstance(s_.value.op, ast.Div)
-                   and isinstance(s_.value.right, ast.Call) and dotted(s_.value.right.func) == "sum"]
+            den = [s_ for s_ in blk if isinstance(s_, ast.Assign) and isinstance(s_.value, ast.BinOp) and isinstance(s_.value.op, ast.Div) and isinstance(s_.value.right, ast.Call)]
             if not recv or not den:
                 continue
             n += 1
+            if dotted(den[0].value.right.func) != "sum":
+                r.violate(f"branch:{norm(recv[0].value)[:50]}", f, f"the block-level density is divided by `{norm(den[0].value.right)[:50]}`: de-homogenising means dividing by the SUM OF THE "
+                          "VOLUME FRACTIONS of the receiving children; any other divisor (a count of children ...) does not give density x volume back", node=den[0])
+                continue
             a, b = selector(recv[0].value), selector(den[0].value.right)
             same = a is not None and b is not None and a[0] == b[0] and a[2:] == b[2:] and a[0] in ("ALL", "IDX")
             r.require(same, f"branch:{norm(recv[0].value)[:50]}", f, node=recv[0],
